@@ -1,5 +1,6 @@
 import Operon.Model.Proto
 import Operon.Model.Mito
+import Operon.Model.MitoWork
 /-!
   Line-protocol driver shared by C01 and C02 (`Drv/C01.lean`, `Drv/C02.lean` only call `Mito.main`).
 
@@ -290,6 +291,8 @@ structure DSt where
   toolMeta : List (String × (Nat × Bool)) := []
   ros : Float := 0.0
   maxRos : Float := 1.0
+  /-- C01 only: `met` / `dg` observations carry the number of walker invocations (`v=…`, see `Model/MitoWork.lean`) -/
+  showWork : Bool := false
 
 def parsePairs {α} (f : String → Option α) (s : String) : List (α × Prim) :=
   (splitComma s).filterMap fun kv =>
@@ -348,6 +351,11 @@ def step (st : DSt) (toks : List String) : DSt × String :=
   | ["tables", b, u, c, bo, n] =>
     ({ st with T := ⟨parsePairs binOfName b, parsePairs unOfName u, parsePairs cmpOfName c,
                      (splitComma bo).filterMap boolOfName, (splitComma n).map strOfHex⟩ }, "ok")
+  -- the public allow-list tables re-assigned / edited on the LIVE engine (instance attribute, class attribute, in
+  -- place): whichever way, the tables in force from the next call on are the new ones — the model keeps no copy
+  | ["retable", _how, b, u, c, bo, n] =>
+    ({ st with T := ⟨parsePairs binOfName b, parsePairs unOfName u, parsePairs cmpOfName c,
+                     (splitComma bo).filterMap boolOfName, (splitComma n).map strOfHex⟩ }, "ok ## retable")
   | "cfg" :: seed :: silent :: rn :: rd :: tz :: pit :: dit :: maxLen :: allowed :: rest =>
     let al := if allowed = "none" then none else some (splitComma allowed)
     let sg := match rest with | [x] => boolOf x | _ => true
@@ -374,7 +382,8 @@ def step (st : DSt) (toks : List String) : DSt × String :=
       let counted := failed && !latched && inp.len ≤ st.cfg.maxLen && out != .raised
       let ros' := if counted then st.ros + 0.1 else st.ros
       let head := match out with | .text true => "text:ok" | .text false => "text:fail" | .raised => "raised"
-      ({ st with ros := ros' }, s!"{head} ros={rosObs ros'} {showTraceV st tr} ## dg:{head}")
+      let w := if st.showWork then s!" v={metVisits st.T (envOf st) st.cfg latched .glycolysis inp (some .glycolysis)}" else ""
+      ({ st with ros := ros' }, s!"{head} ros={rosObs ros'} {showTraceV st tr}{w} ## dg:{head}")
   | ["cdg", sr, _src] =>
     (st, if st.cfg.strGuarded || !boolOf sr then "returned ## cdg:returned" else "unknown ## cdg:unknown")
   | "met" :: forced :: pr :: len :: raw :: low :: beta :: tree =>
@@ -390,7 +399,8 @@ def step (st : DSt) (toks : List String) : DSt × String :=
         | _ => st.ros
       let tags := [outcomeTag out] ++ (if forced = "auto" && !latched && inp.len ≤ st.cfg.maxLen then [dtag] else [])
         ++ (if latched then ["latched"] else []) ++ (if inp.len > st.cfg.maxLen then ["too-long"] else [])
-      ({ st with ros := ros' }, s!"{showOutcomeHead out} ros={rosObs ros'} {showTraceV st tr} ## " ++ joinSp tags)
+      let w := if st.showWork then s!" v={metVisits st.T (envOf st) st.cfg latched d inp (pathwayOfName forced)}" else ""
+      ({ st with ros := ros' }, s!"{showOutcomeHead out} ros={rosObs ros'} {showTraceV st tr}{w} ## " ++ joinSp tags)
   | "pyev" :: _src :: tree =>
     match parseTree tree with
     | some (some e) =>
@@ -419,6 +429,13 @@ def step (st : DSt) (toks : List String) : DSt × String :=
       (st, s!"{((pathwayOfName forced).map pathwayName).getD "none"} ## too-long")
     else
       (st, s!"{pathwayName ((pathwayOfName forced).getD d)} ## " ++ (if forced = "auto" then dtag else "forced"))
+  -- concrete text on an engine whose allow-list was narrowed after construction: pathway selection as for `cmet`
+  | ["cmetn", _how, _drop, forced, len, raw, low] =>
+    let (d, dtag) := detect (st.toolsLower.map (·.2)) (decodeCps raw) (decodeCps low)
+    if natD len > st.cfg.maxLen then
+      (st, s!"{((pathwayOfName forced).map pathwayName).getD "none"} ## too-long")
+    else
+      (st, s!"{pathwayName ((pathwayOfName forced).getD d)} ## " ++ (if forced = "auto" then dtag else "forced"))
   | "bound" :: _src :: toks =>
     match parseIExpr toks with
     | some (e, []) =>
@@ -433,5 +450,8 @@ def step (st : DSt) (toks : List String) : DSt × String :=
   | _ => (st, "bad-op")
 
 def main : IO Unit := runDriver ({} : DSt) step
+
+/-- C01's driver: observations carry the walker-invocation count -/
+def mainW : IO Unit := runDriver ({ showWork := true } : DSt) step
 
 end Operon.Mito
